@@ -139,7 +139,7 @@ class NativeContract:
         self.ns.setdefault("np", np)
         self.repo_root = repo_root
         self.requires = [(ast.unparse(e), _compile(e)) for e in contract.requires]
-        self.ensures = [(ast.unparse(e), _compile(e)) for e in contract.ensures]
+        self.ensures = [(ast.unparse(e), _compile(e)) for e in list(contract.ensures) + list(getattr(contract, "native_ensures", []))]
         self.raises = [(r["exc"], ast.unparse(r["when"]), _compile(r["when"])) for r in contract.raises]
 
     def _eval(self, code, env):
